@@ -190,8 +190,18 @@ impl<'a, E: Elem> GNew<'a, E> {
             Ok(()) => {
                 if cx.checks.c08 && E::HAS_ID {
                     let got = with_arr!(&dst; x, N => { let _ = N::USIZE; ids_of(x.as_slice(), 932) });
-                    if srcs != pre || got != news {
-                        fail("C08-clone-calls", format!("clone_from of {pre:?} cloned {srcs:?}; destination holds {got:?}, clones made {news:?}"));
+                    // clone_from is not named by the statement's call-order clause: only what the
+                    // destination ends up holding is compared (element i is a clone of source element i)
+                    let origin: Vec<u32> = infra(|| got.iter().map(|g| {
+                        let mut cur = *g;
+                        for _ in 0..8 {
+                            match clones.iter().rev().find(|c| c.1 == cur) { Some(c) => { cur = c.0; if pre.contains(&cur) { return cur; } } None => break }
+                        }
+                        0
+                    }).collect());
+                    let _ = (&srcs, &news);
+                    if origin != pre {
+                        fail("C08-result", format!("clone_from of {pre:?}: the destination holds clones of {origin:?}"));
                     }
                 }
             }
